@@ -195,6 +195,15 @@ def materialised(case, salt):
           fh.write(text)
       else:
         mem.files[path] = text
+    if salt % 3 == 0:
+      # a *directory* that carries the file's name in a location searched before the one that holds the file: not a file
+      order = [''] + list(case.get('reglog', ['L1', 'L2']))
+      for name, first in expected_first.items():
+        if not first or name == 'p':
+          continue
+        for loc in order[:order.index(first[0])] if first[0] in order else []:
+          if not any(pl[0] == loc and pl[2] == name for pl in case['present']):
+            os.makedirs(os.path.join(locpath[loc], name + '.gin'), exist_ok=True)
     gin.clear_config()
     sk = case['skip']
     skip = {'false': False, 'true': True}.get(sk['mode'])
